@@ -2,6 +2,8 @@ package main
 
 import (
 	"fmt"
+	"os"
+	"path/filepath"
 	"reflect"
 	"strings"
 
@@ -63,7 +65,17 @@ func runC15(c *Ctx) error {
 		{"datetime", "abc", "abc"}, {"int", "abc", "abc"}, {"ints", "a,b", "a,b"}, {"float", "abc", "abc"}, {"re='^\\d+$'", "abc", "abc"},
 		{"ip", "abc", "abc"}, {"ipv4", "abc", "abc"}, {"ipv6", "abc", "abc"}, {"unique", "a,a", "a,a"}, {"json", "{", "{"}, {"prefix=zz", "abc", "abc"},
 		{"suffix=zz", "abc", "abc"}, {"required", "", ""},
+		// a rule argument with CJK characters does not decide the label: the message does
+		{"in=(男/女)", "abc", "abc"}, {"include=(中)", "abc", "abc"}, {"prefix=博士", "abc", "abc"}, {"suffix='士'", "abc", "abc"},
+		{"re='^[一-龥]+$'", "abc", "abc"}, {"date='年'", "abc", "abc"}, {"ints='、'", "a、b", "a、b"},
 	}
+	// file / dir: a path that exists but is of the other sort (the custom message is shown then too)
+	fsRoot := filepath.Join(c.Out, "c15fs")
+	_ = os.MkdirAll(filepath.Join(fsRoot, "d"), 0o755)
+	_ = os.WriteFile(filepath.Join(fsRoot, "f"), []byte("x"), 0o644)
+	defer os.RemoveAll(fsRoot)
+	violated = append(violated, rv{"file", filepath.Join(fsRoot, "d"), filepath.Join(fsRoot, "d")}, rv{"dir", filepath.Join(fsRoot, "f"), filepath.Join(fsRoot, "f")},
+		rv{"file", filepath.Join(fsRoot, "missing"), filepath.Join(fsRoot, "missing")}, rv{"dir", filepath.Join(fsRoot, "missing"), filepath.Join(fsRoot, "missing")})
 	// directed: every rule x every special message shape (one byte, quotes, the labels themselves, separator bytes)
 	type sm struct {
 		msg string
@@ -105,6 +117,20 @@ func runC15(c *Ctx) error {
 			orc.tm[[2]string{lay, s}] = false
 		}
 		orc.re[[2]string{`^\d+$`, s}] = false
+		orc.re[[2]string{`^[一-龥]+$`, s}] = false
+		orc.tm[[2]string{"2006年01年02", s}] = false
+		if strings.HasPrefix(s, fsRoot) {
+			switch {
+			case strings.HasSuffix(s, "missing"):
+				orc.stat[s] = nil
+			case strings.HasSuffix(s, "d"):
+				t := true
+				orc.stat[s] = &t
+			default:
+				f := false
+				orc.stat[s] = &f
+			}
+		}
 		call.Orc = orc
 		path := ""
 		switch entry {
